@@ -29,9 +29,10 @@ RULE = ("histories = (configuration, direction, symbol sequence) over 15 (inboun
         "(configuration, direction, sequence).")
 ASSUME = ["at most one CER per connection (RFC 6733 5.3; behaviour after a second one is unspecified)",
           "each configured peer is used on at most one connection (second connections are C13's subject)",
-          "timer reference = last instant bytes arrived on the connection (connection creation if none); "
+          "timer reference = the instant the connection was accepted / the dial completed and the CER was sent (the documented meaning "
+          "of cer_timeout / cea_timeout); bytes that are not the expected CER / CEA do not extend the wait; "
           "safety: not closed while int(now)-int(ref) <= T, promptness: closed by ref + T + wakeup + 1",
-          "outbound connects complete at the instant of the dial",
+          "outbound connects complete at the instant of the dial unless the case says otherwise (connect_delay)",
           "routing is probed with Node.route_request (public API), not by sending"]
 
 CONFIGS = [
@@ -154,6 +155,8 @@ def evaluate(case) -> Result:
         sent_cer = False
         res.classes.append(f"dir:{direction}")
         res.classes.append(f"cfg:{c['name']}")
+        if case.get("trickle"):
+            res.classes.append("trickle-of-other-messages")
         for i, s in enumerate(syms):
             if conn.node_closed and state in ("awaiting", "rejected5010"):
                 state = "closed-unexpected"
@@ -191,8 +194,6 @@ def evaluate(case) -> Result:
                     res.classes.append("pipelined")
                 if not w.feed(conn, data):
                     break
-                if state in ("awaiting", "rejected5010"):
-                    ref = int(w.k.now)
             conn.refresh()
             new = conn.out[n_out:]
             n_out = len(conn.out)
@@ -218,12 +219,12 @@ def evaluate(case) -> Result:
                         closed_at = conn.remote.closed_at
                         if int(closed_at) - ref <= T:
                             res.v(f"C06/{direction}/timeout/early",
-                                  f"closed {int(closed_at) - ref}s after the last bytes, timeout is {T}s")
+                                  f"closed {int(closed_at) - ref}s after the connection was established, timeout is {T}s")
                         state = "closed"
                         outcome = "timeout"
                     elif w.k.now - ref >= T + c["timers"]["wakeup"] + 1:
                         res.v(f"C06/{direction}/timeout/late",
-                              f"still open {w.k.now - ref:g}s after the last bytes; timeout {T}s, wakeup {c['timers']['wakeup']}s")
+                              f"still open {w.k.now - ref:g}s after the connection was established; timeout {T}s, wakeup {c['timers']['wakeup']}s")
                     if new:
                         res.v(f"C06/{direction}/gate/frame-on-timer", f"node sent {[f.brief() for f in new]} while awaiting the exchange")
                 elif not expected_ce:
@@ -721,6 +722,12 @@ def shard_main(shard, nshards, tier, scale):
         for delay in ("short", "long"):
             for seq in (["CEA_2001", "REQ"], ["ADV1", "CEA_2001"], ["ADVT"], ["DWR", "CEA_2001"], ["CEA_5xxx"]):
                 jobs.append({"cfg": ci, "dir": "out", "syms": seq, "connect_delay": delay})
+    # a connection that keeps sending anything but the expected CER / CEA, once per second, for longer than the timeout
+    for ci, cc in enumerate(CONFIGS):
+        for direction in ("in", "out"):
+            T_ = cc["timers"]["cer"] if direction == "in" else (cc["ptimers"].get("cea") or cc["timers"]["cea"])
+            for noise_ in ("DWR", "DWA", "REQ", "ANS", "DPA"):
+                jobs.append({"cfg": ci, "dir": direction, "syms": [noise_, "ADV1"] * (T_ + cc["timers"]["wakeup"] + 2), "trickle": True})
     if shard == 0:
         rec.extra["enumerated_histories"] = len(jobs)
     rec.extra["enumeration_depth"] = depth
@@ -762,7 +769,7 @@ def run(tier, scale=1.0):
     rec = Recorder(PID)
     for d in hyp.pool_run(shard_main, (tier, scale)):
         rec.merge(d)
-    required = {"connect-delay:long": 1, "connect-delay:short": 1, "connecting-vs-early-bytes": 1, "waiting-sender-vs-cea": 1, "other-peer-busy": 1, "dir:in": 1, "dir:out": 1, "outcome:ready": 1, "outcome:3010": 1, "outcome:5010": 1,
+    required = {"trickle-of-other-messages": 1, "connect-delay:long": 1, "connect-delay:short": 1, "connecting-vs-early-bytes": 1, "waiting-sender-vs-cea": 1, "other-peer-busy": 1, "dir:in": 1, "dir:out": 1, "outcome:ready": 1, "outcome:3010": 1, "outcome:5010": 1,
                 "outcome:rejected": 1, "outcome:timeout": 1, "noise:True": 1, "len:6": 1,
                 "schedule-exploration": 1, "cfg:auth4/configured-name-mixed-case": 1, "other-peers-ready:2": 1, "pipelined-behind-rejected-cer": 1, "pipelined-behind-rejected-cea": 1}
     return finish(rec, tier=tier, level="exploration", rule=RULE, assumptions=ASSUME, t0=t0,
